@@ -808,27 +808,21 @@ func healthStream(cfg *Config) (res *hx.Stats) {
 							}
 						}
 						if c.isMap {
-							if len(c.keys) == 0 {
-								continue
-							}
 							b := c.builder
 							if b == nil {
 								b = atree.NewDefaultDigesterBuilder()
 							}
 							m, err := atree.NewMapWithRootID(x.ps, c.root, b)
 							hcMust(err)
-							for j, n := 0, 1+rng2.Intn(3); j < n; j++ {
+							for j, n := 0, 1+rng2.Intn(3); j < n && len(c.keys) > 0; j++ {
 								old, err := m.Set(hx.CompareKey, hx.HashInput, c.keys[rng2.Intn(len(c.keys))], newVal())
 								hcMust(err)
 								dispose(old)
 							}
 						} else {
-							if c.n == 0 {
-								continue
-							}
 							a, err := atree.NewArrayWithRootID(x.ps, c.root)
 							hcMust(err)
-							for j, n := 0, 1+rng2.Intn(3); j < n; j++ {
+							for j, n := 0, 1+rng2.Intn(3); j < n && c.n > 0; j++ {
 								old, err := a.Set(uint64(rng2.Intn(c.n)), newVal())
 								hcMust(err)
 								dispose(old)
